@@ -669,6 +669,17 @@ func c06Length(c *Ctx, p *Prog) {
 						}
 					}
 				}
+				// x[:] of a slice is the slice: look through whole re-slices (an argument bound by a helper)
+				for hop := 0; hop < 4; hop++ {
+					s2, ok := a.(*ssa.Slice)
+					if !ok || s2.Low != nil || s2.High != nil {
+						break
+					}
+					if _, isSl := s2.X.Type().Underlying().(*types.Slice); !isSl {
+						break
+					}
+					a = unspill(s2.X)
+				}
 				if sl, ok := a.(*ssa.Slice); ok {
 					if l, ok := constLen(sl.X.Type()); ok && l == 2 {
 						for _, rf := range p.CallsIn(dec, "io.ReadAtLeast") {
